@@ -25,6 +25,7 @@ type c02Stats struct {
 }
 
 func c02Run(c pmCase) (*vlib.Failure, c02Stats) {
+	defer vlib.Guard("C02", c, nil)()
 	var rs c02Stats
 	env := pmSetup(c)
 	defer env.close()
